@@ -236,13 +236,13 @@ fn gen_config(r: &mut Rng, p_set: usize) -> Config {
     }
     if r.chance(p_set) {
         // extreme values count too: zero is a value, not "unset"
-        c.connect_timeout = Some(if r.chance(20) { Duration::ZERO } else { Duration::new(r.below(100) as u64, r.below(1000) as u32) });
+        c.connect_timeout = Some(if r.chance(20) { Duration::ZERO } else { Duration::new(r.below(100) as u64, if r.chance(40) { r.below(1000) as u32 } else { r.below(1_000_000_000) as u32 }) });
     }
     if r.chance(p_set) {
         c.keepalives = Some(r.chance(50));
     }
     if r.chance(p_set) {
-        c.keepalives_idle = Some(if r.chance(20) { Duration::ZERO } else { Duration::new(r.below(10000) as u64, 0) });
+        c.keepalives_idle = Some(if r.chance(20) { Duration::ZERO } else { Duration::new(r.below(10000) as u64, if r.chance(40) { 0 } else { r.below(1_000_000_000) as u32 }) });
     }
     if r.chance(p_set) {
         c.target_session_attrs = Some(*r.pick(&[TargetSessionAttrs::Any, TargetSessionAttrs::ReadWrite]));
